@@ -129,12 +129,14 @@ func tail(s string, n int) string {
 }
 
 // runNative runs one replay file; returns (result line, observations).
+var nativeLabelPrefix string
+
 func runNative(nb *nativeBuild, replayPath string) (string, []string) {
 	ctx, cancel := context.WithTimeout(context.Background(), 60*time.Second)
 	defer cancel()
 	cmd := exec.CommandContext(ctx, nb.bin, "-test.run", "^TestVerifReplay$", "-test.count=1", "-test.timeout=50s")
 	cmd.Dir = nb.dir
-	cmd.Env = append(os.Environ(), "VERIF_REPLAY="+replayPath)
+	cmd.Env = append(os.Environ(), "VERIF_REPLAY="+replayPath, "VERIF_LABEL_PREFIX="+nativeLabelPrefix)
 	var buf bytes.Buffer
 	cmd.Stdout = &buf
 	cmd.Stderr = &buf
@@ -348,6 +350,7 @@ func cmdReplay(args []string) int {
 		return 2
 	}
 	abs, _ := filepath.Abs(args[0])
+	nativeLabelPrefix = rf.Property
 	res, obs := runNative(nb, abs)
 	fmt.Printf("native outcome: %s\n", res)
 	for _, o := range obs {
